@@ -409,11 +409,54 @@ class Extractor:
         self.functions.append(meta)
 
 
+BASELINE_FNS = os.path.join(VERIF, 'units', 'baseline_fns.json')
+
+
+def file_functions(text):
+    """Names of the functions defined in a source file outside #[cfg(test)] modules,
+    as 'impl-header::fn' / 'fn'."""
+    masked = rustscan.mask(text)
+    tests = rustscan.test_mod_ranges(text, masked)
+    impls = rustscan.impl_blocks(text, masked)
+    out = set()
+    for m in re.finditer(r'\bfn\s+(\w+)', masked):
+        i = m.start()
+        if any(a <= i <= b for a, b in tests):
+            continue
+        owner = ''
+        best = None
+        for (h, o, c) in impls:
+            if o < i < c and (best is None or o > best[0]):
+                best = (o, h)
+        if best:
+            owner = re.sub(r'\s+', ' ', best[1]).strip() + '::'
+        out.add(owner + m.group(1))
+    return out
+
+
+def coverage_guard(ex):
+    """Functions that exist now in a file a unit extracts from but did not exist when the
+    contracts were written (units/baseline_fns.json): code the contracts know nothing about."""
+    import json
+    if not os.path.exists(BASELINE_FNS):
+        return []
+    base = json.load(open(BASELINE_FNS))
+    new = []
+    for rel, text in ex._src_cache.items():
+        if rel not in base:
+            continue
+        known = set(base[rel])
+        for f in sorted(file_functions(text) - known):
+            new.append('%s: %s' % (rel, f))
+    return new
+
+
 def generate(unit_path, out_path, repo=None, drop_splices=None):
     ex = Extractor(repo)
     if drop_splices:
         ex.drop_splices = drop_splices
     ex.process_file(unit_path)
+    ex.new_functions = coverage_guard(ex)
     text = ex.out.text()
     os.makedirs(os.path.dirname(out_path), exist_ok=True)
     with open(out_path, 'w') as f:
